@@ -754,7 +754,17 @@ def generation_monotone(rep, rule, mod):
         for n in ast.walk(fn):
             tgts = []
             if isinstance(n, ast.Assign):
-                tgts = [(t, 'store') for t in n.targets]
+                # `x = x + 1` / `x = 1 + x` is the increment spelled out
+                kind_ = 'store'
+                v_ = n.value
+                if len(n.targets) == 1 and isinstance(v_, ast.BinOp) and \
+                        isinstance(v_.op, ast.Add):
+                    tt_ = ast.dump(ast.parse(ast.unparse(n.targets[0]), mode='eval').body)
+                    for a_, b_ in ((v_.left, v_.right), (v_.right, v_.left)):
+                        if isinstance(b_, ast.Constant) and b_.value == 1 and \
+                                type(b_.value) is int and ast.dump(a_) == tt_:
+                            kind_ = 'increment'
+                tgts = [(t, kind_) for t in n.targets]
             elif isinstance(n, ast.AugAssign):
                 inc = isinstance(n.op, ast.Add) and isinstance(n.value, ast.Constant) \
                     and n.value.value == 1
